@@ -117,7 +117,17 @@ def members_and_restores(ctx, n):
                 w.write(os.path.join(w.items[0], 'f%d' % k), 800 + i * 10 + k, rng.choice([30, 5000, 20000]))
             assert w.backup(advance=5).rc == 0
             g1, b1 = store.group_name(w.now), store.backup_name(w.now)
-            os.unlink(os.path.join(w.root, g1, b1, 'data.tar.zst'))
+            if i % 3 == 2:
+                # variant: the backup that alone records some content was never published - it is an abandoned temporary
+                # (`.name`) with a readable manifest: it is no member of the group
+                w.write(os.path.join(w.items[0], 'only-there'), 850 + i, 9000)
+                assert w.backup(advance=7).rc == 0
+                bt = store.backup_name(w.now)
+                os.rename(os.path.join(w.root, g1, bt), os.path.join(w.root, g1, '.' + bt))
+                with open(os.path.join(w.root, g1, '.' + bt, 'data.tar.zst'), 'r+b') as f:
+                    f.truncate(100)
+            else:
+                os.unlink(os.path.join(w.root, g1, b1, 'data.tar.zst'))
             if i % 2:
                 for k in range(3):
                     w.fresh_mtime(os.path.join(w.items[0], 'f%d' % k))
@@ -187,7 +197,7 @@ def check(ctx):
     steps = dc.run_all(ctx, 50, 700)
     races = racing_writer(ctx, 4 if ctx.tier == 'quick' else 40)
     same = same_second(ctx, 6 if ctx.tier == 'quick' else 60)
-    memb = members_and_restores(ctx, 3 if ctx.tier == 'quick' else 30)
+    memb = members_and_restores(ctx, 4 if ctx.tier == 'quick' else 30)
     pub, st = dc.correspond(ctx, steps, dc.oracle_c02, 'dedup')
     distinct = {core.canon(dc.model_request(s)) for s in pub if s['earlier'] and len(s['new']['records'] or []) >= 2}
     ctx.coverage.update({
